@@ -150,6 +150,54 @@ fn unhex(s: &str) -> Vec<u8> {
   (0..s.len() / 2).map(|i| u8::from_str_radix(&s[2 * i..2 * i + 2], 16).unwrap()).collect()
 }
 
+/// ast-parent: for every operator and every first type2 of the top-level alternatives of every type rule, climb the parent
+/// index to the enclosing rule and report its name and the number of steps (the same in every configuration)
+#[cfg(feature = "ast-parent")]
+fn parents(text: &str) -> String {
+  use cddl::ast::parent::ParentVisitor;
+  use cddl::ast::{CDDLType, Rule};
+  let r = std::panic::catch_unwind(|| {
+    let Ok(ast) = cddl::cddl_from_str(text, false) else { return "ERR-parse".to_string() };
+    let pv = match ParentVisitor::new(&ast) {
+      Ok(p) => p,
+      Err(_) => return "ERR-index".to_string(),
+    };
+    let climb = |start: CDDLType| -> String {
+      let mut steps = 0;
+      let mut cur: Option<&CDDLType> = start.parent(&pv);
+      while let Some(c) = cur {
+        steps += 1;
+        if let CDDLType::Rule(r) = c {
+          let name = match r {
+            Rule::Type { rule, .. } => rule.name.ident,
+            Rule::Group { rule, .. } => rule.name.ident,
+          };
+          return format!("{name}@{steps}");
+        }
+        if steps > 64 {
+          break;
+        }
+        cur = c.parent(&pv);
+      }
+      format!("none@{steps}")
+    };
+    let mut out = vec![];
+    for rule in &ast.rules {
+      if let Rule::Type { rule, .. } = rule {
+        for tc in &rule.value.type_choices {
+          out.push(climb(CDDLType::from(&tc.type1.type2)));
+          if let Some(op) = &tc.type1.operator {
+            out.push(climb(CDDLType::from(&op.operator)));
+            out.push(climb(CDDLType::from(&op.type2)));
+          }
+        }
+      }
+    }
+    out.join(",")
+  });
+  r.unwrap_or_else(|_| "PANIC".to_string())
+}
+
 fn main() {
   let path = std::env::args().nth(1).expect("input file");
   let inp: serde_json::Value = serde_json::from_str(&std::fs::read_to_string(path).expect("read")).expect("json");
@@ -166,6 +214,10 @@ fn main() {
       });
       match r {
         Ok(Some((h, f, dbg))) => {
+          #[cfg(feature = "ast-parent")]
+          {
+            let _ = writeln!(o, "PV {fam} {i} {}", parents(text));
+          }
           let _ = writeln!(o, "P {fam} {i} ok");
           let _ = writeln!(o, "A {fam} {i} {h:016x}{}", if dbg.is_empty() { String::new() } else { format!(" {dbg}") });
           let _ = writeln!(o, "F {fam} {i} {}", serde_json::Value::String(f));
